@@ -253,3 +253,61 @@ def sep_params(draw, dims=(1, 2)):
 
 def build(p):
     return {"prog": Prog, "man": Man, "sep": Sep}[p["kind"]](p)
+
+
+# --------------------------------------------------------------------------------------------------
+class Lin(object):
+    """y' = A y, exact solution through expm (float64).
+    The matrix is scaled so that the logarithmic norms of A and -A satisfy mu * horizon <= 3 (no blow-up over the
+    span in either direction of time)."""
+
+    def __init__(self, p):
+        import scipy.linalg
+        self.p = p
+        A = np.asarray(p["A"], dtype=np.float64)
+        n = A.shape[0]
+        # integration may run in either direction: bound the growth rate of both e^{At} and e^{-At}
+        ev = np.linalg.eigvalsh((A + A.T) / 2)
+        rho = float(np.max(np.abs(ev)))
+        lim = 3.0 / max(p.get("horizon", 1.0), 1e-9)
+        if rho > lim:
+            A = A * (lim / rho)
+            rho = lim
+        self.A = A
+        self.mu = rho
+        self.shape = (n,)
+        self.n = n
+        self.calls = 0
+        self._expm = scipy.linalg.expm
+
+    def __call__(self, t, y, **kw):
+        self.calls += 1
+        y = np.asarray(y)
+        return (self.A.astype(y.dtype) @ y).astype(y.dtype, copy=False)
+
+    def jac(self, t, y, **kw):
+        return self.A.astype(np.asarray(y).dtype)
+
+    def exact(self, t, t0, y0):
+        return self._expm(self.A * (float(t) - float(t0))) @ np.asarray(y0, dtype=np.float64)
+
+    def amplification(self, T):
+        """bound on the growth of perturbations over a span of length T (2-norm): exp(max(mu, 0) T)"""
+        return float(np.exp(max(self.mu, 0.0) * abs(T)))
+
+    def lipschitz(self):
+        return float(np.linalg.norm(self.A, 2))
+
+    nonlinear = False
+    time_dependent = False
+
+
+@st.composite
+def lin_params(draw, dims=(1, 2, 3), horizon=10.0):
+    n = draw(st.sampled_from(list(dims)))
+    A = draw(st.lists(st.lists(st.integers(-8, 8).map(lambda k: k / 4.0), min_size=n, max_size=n), min_size=n, max_size=n))
+    return dict(kind="lin", A=A, horizon=horizon)
+
+
+def build(p):
+    return {"prog": Prog, "man": Man, "sep": Sep, "lin": Lin}[p["kind"]](p)
